@@ -9,7 +9,7 @@ Further sections are registered in SECTIONS by the other Wire components.
 from __future__ import annotations
 
 from .. import coqterm as T
-from .C18_strings import B
+from .C18_strings import B, queue, flush
 
 HEADER = 'From PV Require Import Base.Prelude Wire.SeqSet Wire.SeqSetCheck.\n'
 
@@ -104,7 +104,7 @@ def section_seqset(ctx) -> None:
             for c in (INTERESTING if ctx.quick else range(256)):
                 sweep.append(base[:k] + bytes([c]) + base[k:])
     stream = small + sweep + [gen_seq_bytes(rng) for _ in range(n)]
-    stream = thin(ctx, stream, 2200)
+    stream = thin(ctx, stream, 1400)
     for buf in stream:
         if buf in seen:
             continue
@@ -137,10 +137,8 @@ def section_seqset(ctx) -> None:
         cases.append(T.pair(B(buf), exp))
         inputs.append(buf)
     ctx.sample({'seqset_parse_input': inputs[-1].decode('latin-1')})
-    bad = ctx.run_cases('seqset_parse', HEADER, 'bytes * option (seqset * bytes)', cases,
-                        'chk_seq_parse', shard=1500)
-    for i in bad[:5]:
-        ctx.disagreement('seqset_parse', {'input': inputs[i].hex(),
+    queue(ctx, 'seqset_parse', HEADER, 'bytes * option (seqset * bytes)', cases, 'chk_seq_parse',
+          lambda i, inputs=inputs: {'input': inputs[i].hex(),
                                           'impl': repr(impl_parse(inputs[i]))})
     # --- print / iter / build correspondence
     pc, ic, bc, keep = [], [], [], []
@@ -159,8 +157,7 @@ def section_seqset(ctx) -> None:
     for nm, typ, cs, chk in (('seqset_print', 'seqset * bytes', pc, 'chk_seq_print'),
                              ('seqset_iter', 'seqset * N * list N', ic, 'chk_seq_iter'),
                              ('seqset_build', 'list N * bytes', bc, 'chk_seq_build')):
-        for i in ctx.run_cases(nm, HEADER, typ, cs, chk)[:5]:
-            ctx.disagreement(nm, {'case': repr(keep[i])})
+        queue(ctx, nm, HEADER, typ, cs, chk, lambda i, keep=keep: {'case': repr(keep[i])})
 
 
 def _huge(e) -> bool:
@@ -208,11 +205,22 @@ def run(ctx) -> None:
     checkers = ['Wire/SeqSetCheck']
     for m in mods:
         checkers += list(getattr(m, 'CHECKERS', []))
+    import time
+    timing = ctx.extra.setdefault('timing_s', {})
+    t = time.time()
     ctx.check_proofs(checkers)
+    timing['proofs'] = round(time.time() - t, 1)
     for sec in SECTIONS:
+        t = time.time()
         sec(ctx)
+        timing['seqset'] = round(time.time() - t, 1)
     for m in mods:
+        t = time.time()
         m.section(ctx)
+        timing[m.__name__.rsplit('.', 1)[-1]] = round(time.time() - t, 1)
+    t = time.time()
+    flush(ctx)      # evaluate every queued correspondence, several coqc at a time
+    timing['coq_cases'] = round(time.time() - t, 1)
 
 
 def replay(ctx, obj) -> int:
